@@ -88,6 +88,13 @@ WITNESSES: dict[str, dict[str, str]] = {
         "b.py": "def f(x: bytes) -> None: ...\nf(bytearray(b''))\nf(memoryview(b''))\n",
         "builtins.pyi": "@fixtures/primitives.pyi",
     },
+    # two plugins that hook the same function: the first one listed wins
+    "plugins": {
+        "a.py": "import lib\nx: int = lib.make()\ny: str = lib.make()\n",
+        "lib.py": "def make() -> object: ...\n",
+        "p1.py": "from mypy.plugin import Plugin\nclass P(Plugin):\n    def get_function_hook(self, fullname):\n        if fullname == 'lib.make':\n            return lambda ctx: ctx.api.named_generic_type('builtins.int', [])\n        return None\ndef plugin(version):\n    return P\n",
+        "p2.py": "from mypy.plugin import Plugin\nclass P(Plugin):\n    def get_function_hook(self, fullname):\n        if fullname == 'lib.make':\n            return lambda ctx: ctx.api.named_generic_type('builtins.str', [])\n        return None\ndef plugin(version):\n    return P\n",
+    },
 }
 
 # valued (non-boolean) options: name -> list of (A, B) pairs, each a dict(cli=[...]) and/or dict(ini="key = value")
@@ -102,7 +109,16 @@ VALUED: dict[str, list[tuple[dict[str, Any], dict[str, Any]]]] = {
     "enable_incomplete_feature": [({}, {"cli": ["--enable-incomplete-feature", "PreciseTupleTypes"]})],
     "many_errors_threshold": [({}, {"ini": "many_errors_threshold = 2"})],
     "python_version": [],   # the cache directory is per version: not the same cache
+    # order matters: plugins are chained in the configured order
+    "plugins": [({"ini": "plugins = p1.py, p2.py"}, {"ini": "plugins = p2.py, p1.py"}),
+                ({"ini": "plugins = p1.py"}, {"ini": "plugins = p1.py, p2.py"}),
+                ({}, {"ini": "plugins = p2.py"})],
 }
+# options that only meet in pairs: X is toggled while Y keeps a non-default value in both runs
+CONTEXT_FLAGS = {"show_error_code_links": "--show-error-code-links", "hide_error_codes": "--hide-error-codes", "show_column_numbers": "--show-column-numbers",
+                 "show_error_end": "--show-error-end", "show_error_context": "--show-error-context", "pretty": "--pretty",
+                 "show_absolute_path": "--show-absolute-path", "warn_unused_ignores": "--warn-unused-ignores", "strict_optional": "--no-strict-optional",
+                 "ignore_missing_imports": "--ignore-missing-imports", "check_untyped_defs": "--check-untyped-defs"}
 FLAG_WITNESS_EXTRA = {"always_true": "FLAG = 0\nif FLAG:\n    1 + ''\nelse:\n    2 + ''\n", "always_false": "FLAG = 0\nif FLAG:\n    1 + ''\nelse:\n    2 + ''\n"}
 
 
@@ -127,7 +143,7 @@ def write_ini(root: str, setting: dict[str, Any]) -> list[str]:
     if setting.get("ini"):
         lines.append(setting["ini"])
     if setting.get("permod"):
-        lines += ["[mypy-b]", setting["permod"]]
+        lines += ["[mypy-%s]" % setting.get("section", "b"), setting["permod"]]
     with open(ini, "w") as f:
         f.write("\n".join(lines) + "\n")
     os.utime(ini, (1_000_000, 1_000_000))
@@ -206,6 +222,13 @@ def option_table() -> tuple[list[dict[str, Any]], dict[str, Any]]:
             # the global value toggles while a [mypy-b] section pins the same option for b
             places.append(("ini+pinned-b", {"ini": "%s = %s" % (name, dv), "permod": "%s = %s" % (name, dv)},
                            {"ini": "%s = %s" % (name, not dv), "permod": "%s = %s" % (name, dv)}))
+        if name in PER_MODULE_OPTIONS:
+            # the option reaches b only through a wildcard section ([mypy-b.*] covers b and its submodules)
+            places.append(("permod-glob", {"permod": "%s = %s" % (name, dv), "section": "b.*"}, {"permod": "%s = %s" % (name, not dv), "section": "b.*"}))
+        if name in CONTEXT_FLAGS:
+            for ctx, cflag in sorted(CONTEXT_FLAGS.items()):
+                if ctx != name:
+                    places.append(("cli+ctx:" + ctx, {"cli": [cflag]}, {"cli": [cflag, CONTEXT_FLAGS[name]]}))
         for place, A, B in places:
             table.append({"opt": name, "place": place, "A": A, "B": B, "idx": 0})
     for name, pairs in VALUED.items():
@@ -249,6 +272,10 @@ def main(argv: list[str]) -> int:
     wnames = list(WITNESSES)
     for t in table:
         for wn in wnames:
+            if (wn == "plugins") != (t["opt"] == "plugins"):
+                continue
+            if t["place"].startswith("cli+ctx:") and wn not in ("generic", "display", "imports"):
+                continue
             cases.append(dict(t, witness=wn))
     results = []
     with ProcessPoolExecutor(16) as pex:
